@@ -26,7 +26,8 @@ def append(path, text):
 
 
 # Each seed: (name, expectation, function applying the edit to scratch dir d)
-# expectation: ("write", fn-substring, root-set) or ("call", fn-substring, callee-substring)
+# expectation: ("write", fn-substring, root-set[, kind]), ("call", fn-substring, callee-substring)
+# or ("owned", fn-substring): a new owned write there and no new non-owned write anywhere
 SEEDS = []
 
 
@@ -230,6 +231,16 @@ def s19(d):
            "\tcopy(dst, \"xy\")\n\tdelete(m, 1)\n\treturn append(dst[:0], 1)\n}\n")
 
 
+@seed("20 (precision) writes into slices returned by fresh analysed callees stay owned",
+      ("owned", "bmtree.Decode"),
+      ("owned", "sigbits.ShardByPrefix"))
+def s20(d):
+    edit(d + "/bmtree/decode.go", "\tfor _, p := range paths {\n",
+         "\tif len(paths) > 0 {\n\t\tpaths[0] |= 0\n\t}\n\tfor _, p := range paths {\n")
+    edit(d + "/sigbits/sharding.go", "\tn := int32(len(firstDiffs) + 1)\n",
+         "\tn := int32(len(firstDiffs) + 1)\n\tif n > 1 {\n\t\tfirstDiffs[0] += 0\n\t}\n")
+
+
 def run_tool(binary, repo, out_json):
     with tempfile.NamedTemporaryFile(suffix=".lean") as lean:
         r = subprocess.run([binary, "-q", "-repo", repo, "-out", lean.name, "-json", out_json],
@@ -286,7 +297,11 @@ def main():
                     new.append(rec)
             ok = True
             for e in expects:
-                if e[0] == "write":
+                if e[0] == "owned":
+                    hit = [x for x in new if x["root"] == "owned" and e[1] in x["fn"]]
+                    if [x for x in new if x["root"] not in ("owned", "-")]:
+                        hit = []
+                elif e[0] == "write":
                     kind = e[3] if len(e) > 3 else None
                     hit = [x for x in new if x["root"] != "-" and e[1] in x["fn"] and x["root"] in e[2]
                            and not x["initOnly"] and (kind is None or x["kind"] == kind)]
